@@ -132,6 +132,17 @@ Definition list_set_slice (l : list A) (s : slc) (xs : list A) : res (list A) :=
            else Err ValueError
   end.
 
+(* l[index] = xs the way a view accepts it: an int takes one value; a slice only a sequence of the
+   slice's own length (RepeatedValueWrapper.__setitem__ documents this restriction), else ValueError *)
+Definition list_setitem_eqlen (l : list A) (index : pyidx) (xs : list A) : res (list A) :=
+  match index with
+  | IInt i => match xs with [x] => list_set_int l i x | _ => Err TypeError end
+  | ISlice s => match range_getslice (zlen l) s with
+                | Err e => Err e
+                | Ok r => if range_len r =? zlen xs then list_set_slice l s xs else Err ValueError
+                end
+  end.
+
 (* del l[slice] *)
 Definition list_del_slice (l : list A) (s : slc) : res (list A) :=
   match slice_indices (zlen l) s with
@@ -139,6 +150,21 @@ Definition list_del_slice (l : list A) (s : slc) : res (list A) :=
   | Ok (a, b, k) =>
       if k =? 1 then Ok (splice l a b [])
       else Ok (remove_positions (range_list (mkrng a b k)) l)
+  end.
+
+(* del l[i] *)
+Definition list_del_int (l : list A) (i : Z) : res (list A) :=
+  match norm_index (zlen l) i with
+  | Err e => Err e
+  | Ok j => Ok (splice l j (j + 1) [])
+  end.
+
+(* l.remove(x): the first element equal to x; ValueError when there is none *)
+Fixpoint list_remove (eqb : A -> A -> bool) (l : list A) (x : A) : res (list A) :=
+  match l with
+  | [] => Err ValueError
+  | y :: r => if eqb y x then Ok r
+              else match list_remove eqb r x with Ok r' => Ok (y :: r') | Err e => Err e end
   end.
 
 (* the position list.insert(i, x) inserts at *)
